@@ -1,2 +1,486 @@
+(* C15 proofs, part 2: the state invariant, the simulation of every operation by the abstract
+   list specification, and the history-level theorems. *)
 From OlaBase Require Import Bytes.
-From C15 Require Import Model Spec.
+From Coq Require Import Arith.
+From C15 Require Import Model Spec ProofsBlock.
+Local Open Scope nat_scope.
+
+(* ------------------------------------------------------------------ lists of buffers *)
+Definition held (l : list buffer) : nat := fold_right (fun bl a => length bl + a) 0 l.
+
+Lemma held_app a b : held (a ++ b) = held a + held b.
+Proof. unfold held. induction a as [|x a IH]; cbn [app fold_right]; [reflexivity|]. rewrite IH. lia. Qed.
+
+Lemma upd_length {A} (l : list A) i v : length (upd l i v) = length l.
+Proof. revert i; induction l as [|x l IH]; intros [|i]; cbn [upd length]; try reflexivity. now rewrite IH. Qed.
+
+Lemma Forall_upd {A} (P : A -> Prop) l i v : Forall P l -> P v -> Forall P (upd l i v).
+Proof.
+  intros Hl Hv. revert i; induction Hl as [|x l Hx Hl IH]; intros [|i]; cbn [upd]; constructor; auto.
+Qed.
+
+Lemma map_upd {A B} (f : A -> B) l i v : map f (upd l i v) = upd (map f l) i (f v).
+Proof. revert i; induction l as [|x l IH]; intros [|i]; cbn [upd map]; try reflexivity. now rewrite IH. Qed.
+
+Lemma held_upd l i v : i < length l -> held (upd l i v) + length (nth i l []) = held l + length v.
+Proof.
+  unfold held. revert i; induction l as [|x l IH]; intros [|i] H; cbn [length] in H; try lia;
+    cbn [upd fold_right nth].
+  - lia.
+  - specialize (IH i ltac:(lia)). lia.
+Qed.
+
+Lemma nth_upd_same {A} (l : list A) i v d : i < length l -> nth i (upd l i v) d = v.
+Proof. revert i; induction l as [|x l IH]; intros [|i] H; cbn [length] in H; try lia; cbn [upd nth]; [reflexivity|]. apply IH. lia. Qed.
+
+Lemma nth_upd_other {A} (l : list A) i j v d : i <> j -> nth j (upd l i v) d = nth j l d.
+Proof.
+  revert i j; induction l as [|x l IH]; intros [|i] [|j] H; cbn [upd nth]; try reflexivity; try congruence.
+  apply IH. congruence.
+Qed.
+
+Lemma getb_ok l i : i < length l -> getb l i = Ok (nth i l []).
+Proof.
+  intros H. unfold getb. destruct (nth_error l i) eqn:E.
+  - now rewrite (nth_error_nth _ _ _ E).
+  - apply nth_error_None in E. lia.
+Qed.
+
+Lemma Forall_nth_d {A} (P : A -> Prop) l i d : Forall P l -> P d -> P (nth i l d).
+Proof. intros Hl Hd. revert i; induction Hl; intros [|i]; cbn [nth]; auto. Qed.
+
+Lemma geta_map l i : geta (map abs_buf l) i = abs_buf (nth i l []).
+Proof. unfold geta. change (@nil N) with (abs_buf []). apply map_nth. Qed.
+
+(* ------------------------------------------------------------------ invariant and abstraction *)
+Record inv (bs nq ns : nat) (st : state) : Prop := mkInv {
+  inv_pool : wfpool bs (s_pool st);
+  inv_q : Forall (wfbuf bs) (s_q st);
+  inv_s : Forall (wfbuf bs) (s_s st);
+  inv_nq : length (s_q st) = nq;
+  inv_ns : length (s_s st) = ns;
+  inv_acct : p_alloc (s_pool st) = length (p_free (s_pool st)) + held (s_q st) + held (s_s st) }.
+
+Definition abs (st : state) : astate := mkA (map abs_buf (s_q st)) (map abs_buf (s_s st)).
+
+Lemma wfbuf_nil bs : wfbuf bs []. Proof. constructor. Qed.
+
+Lemma inv_init bs nq ns : inv bs nq ns (init bs nq ns).
+Proof.
+  unfold init. constructor; cbn [s_pool s_q s_s p_new p_free p_alloc p_bs].
+  - split; [reflexivity|constructor].
+  - apply Forall_forall. intros x Hx. apply repeat_spec in Hx. subst. constructor.
+  - apply Forall_forall. intros x Hx. apply repeat_spec in Hx. subst. constructor.
+  - apply repeat_length.
+  - apply repeat_length.
+  - cbn [length]. assert (forall n, held (repeat [] n) = 0) as H.
+    { induction n as [|n IH]; cbn; [reflexivity|exact IH]. }
+    now rewrite !H.
+Qed.
+
+Lemma map_repeat' {A B} (f : A -> B) x n : map f (repeat x n) = repeat (f x) n.
+Proof. induction n as [|n IH]; cbn [repeat map]; [reflexivity|]. now rewrite IH. Qed.
+
+Lemma abs_init bs nq ns : abs (init bs nq ns) = ainit nq ns.
+Proof. unfold abs, init, ainit. cbn [s_q s_s]. now rewrite !map_repeat'. Qed.
+
+Section Sim.
+Variables bs nq ns : nat.
+Hypothesis Hbs : 1 <= bs.
+Notation Inv := (inv bs nq ns).
+
+Lemma inv_setq st i p' bl' :
+  Inv st -> i < nq -> wfpool bs p' -> wfbuf bs bl' ->
+  acct (s_pool st) (length (nth i (s_q st) [])) p' (length bl') -> Inv (setq st p' i bl').
+Proof.
+  intros [Hp Hq Hs Hnq Hns Hac] Hi Hp' Hbl' Hacct. unfold setq.
+  constructor; cbn [s_pool s_q s_s]; try assumption.
+  - apply Forall_upd; assumption.
+  - now rewrite upd_length.
+  - pose proof (held_upd (s_q st) i bl' ltac:(lia)). unfold acct in Hacct. lia.
+Qed.
+
+Lemma inv_sets st j p' bl' :
+  Inv st -> j < ns -> wfpool bs p' -> wfbuf bs bl' ->
+  acct (s_pool st) (length (nth j (s_s st) [])) p' (length bl') -> Inv (sets st p' j bl').
+Proof.
+  intros [Hp Hq Hs Hnq Hns Hac] Hj Hp' Hbl' Hacct. unfold sets.
+  constructor; cbn [s_pool s_q s_s]; try assumption.
+  - apply Forall_upd; assumption.
+  - now rewrite upd_length.
+  - pose proof (held_upd (s_s st) j bl' ltac:(lia)). unfold acct in Hacct. lia.
+Qed.
+
+Lemma abs_setq st p' i bl' : abs (setq st p' i bl') = aq (abs st) i (abs_buf bl').
+Proof. unfold abs, setq, aq. cbn [s_q s_s a_q a_s]. now rewrite map_upd. Qed.
+Lemma abs_sets st p' j bl' : abs (sets st p' j bl') = as_ (abs st) j (abs_buf bl').
+Proof. unfold abs, sets, as_. cbn [s_q s_s a_q a_s]. now rewrite map_upd. Qed.
+
+Lemma wf_nth_q st i : Inv st -> wfbuf bs (nth i (s_q st) []).
+Proof. intros H. apply Forall_nth_d; [apply (inv_q _ _ _ _ H)|apply wfbuf_nil]. Qed.
+Lemma wf_nth_s st j : Inv st -> wfbuf bs (nth j (s_s st) []).
+Proof. intros H. apply Forall_nth_d; [apply (inv_s _ _ _ _ H)|apply wfbuf_nil]. Qed.
+
+Lemma geta_q st i : geta (a_q (abs st)) i = abs_buf (nth i (s_q st) []).
+Proof. apply geta_map. Qed.
+Lemma geta_s st j : geta (a_s (abs st)) j = abs_buf (nth j (s_s st) []).
+Proof. apply geta_map. Qed.
+
+Ltac getq st i H := rewrite (getb_ok (s_q st) i) by (rewrite (inv_nq _ _ _ _ H); lia); cbn [bind].
+Ltac gets st j H := rewrite (getb_ok (s_s st) j) by (rewrite (inv_ns _ _ _ _ H); lia); cbn [bind].
+
+(* one operation: no hazard, the invariant is kept, and the abstract specification makes the
+   same step with the same output *)
+Lemma step_sim st o :
+  Inv st -> op_ok nq ns o ->
+  exists st' x, step st o = Ok (st', x) /\ Inv st' /\ astep (abs st) o = (abs st', out_abs x).
+Proof.
+  intros H Hok. pose proof (inv_pool _ _ _ _ H) as Hp.
+  destruct o as [i d|i w v|i n|i n|i n|i n|i|i j|i|i|i|j d|j w v|j n|j n|j n|j|j i|j|j|j|];
+    cbn [op_ok] in Hok; unfold step.
+  - (* QWrite *)
+    getq st i H.
+    destruct (q_write_spec bs Hbs (s_pool st) _ d Hp (wf_nth_q st i H)) as (p' & bl' & E & Hp' & Hbl' & Habs & Hac).
+    rewrite E. cbn [bind]. eexists _, _. split; [reflexivity|]. split.
+    + apply inv_setq; assumption.
+    + cbn [astep out_abs]. now rewrite abs_setq, geta_q, Habs.
+  - (* QWriteBE *)
+    getq st i H.
+    destruct (q_write_spec bs Hbs (s_pool st) _ (be_bytes w v) Hp (wf_nth_q st i H)) as (p' & bl' & E & Hp' & Hbl' & Habs & Hac).
+    rewrite E. cbn [bind]. eexists _, _. split; [reflexivity|]. split.
+    + apply inv_setq; assumption.
+    + cbn [astep out_abs]. now rewrite abs_setq, geta_q, Habs.
+  - (* QRead *)
+    getq st i H.
+    destruct (buf_read_spec bs _ (s_pool st) n Hp (wf_nth_q st i H)) as (p' & bl' & E & Hp' & Hbl' & Habs & Hac).
+    rewrite E. cbn [bind]. eexists _, _. split; [reflexivity|]. split.
+    + apply inv_setq; assumption.
+    + cbn [astep out_abs]. now rewrite abs_setq, geta_q, Habs.
+  - (* QReadStr *)
+    getq st i H. rewrite buf_read_str_eq.
+    destruct (buf_read_spec bs _ (s_pool st) n Hp (wf_nth_q st i H)) as (p' & bl' & E & Hp' & Hbl' & Habs & Hac).
+    rewrite E. cbn [bind]. eexists _, _. split; [reflexivity|]. split.
+    + apply inv_setq; assumption.
+    + cbn [astep out_abs]. now rewrite abs_setq, geta_q, Habs.
+  - (* QPeek *)
+    getq st i H. rewrite (q_peek_spec bs _ n (wf_nth_q st i H)). cbn [bind].
+    eexists _, _. split; [reflexivity|]. split; [assumption|].
+    cbn [astep out_abs]. now rewrite geta_q.
+  - (* QPop *)
+    getq st i H.
+    destruct (buf_pop_spec bs _ (s_pool st) n Hp (wf_nth_q st i H)) as (p' & bl' & E & Hp' & Hbl' & Habs & Hac).
+    rewrite E. eexists _, _. split; [reflexivity|]. split.
+    + apply inv_setq; assumption.
+    + cbn [astep out_abs]. now rewrite abs_setq, geta_q, Habs.
+  - (* QIOVec *)
+    getq st i H. rewrite (buf_iovec_spec bs _ (wf_nth_q st i H)). cbn [bind].
+    eexists _, _. split; [reflexivity|]. split; [assumption|].
+    cbn [astep out_abs]. now rewrite geta_q, concat_map_bc.
+  - (* QAppendMove *)
+    destruct Hok as (Hi & Hj & Hij).
+    destruct (Nat.eqb_spec i j) as [?|_]; [contradiction|].
+    getq st i H. getq st j H.
+    eexists _, _. split; [reflexivity|]. split.
+    + destruct H as [_ Hq Hs Hnq Hns Hac]. constructor; cbn [s_pool s_q s_s]; try assumption.
+      * apply Forall_upd; [apply Forall_upd|apply wfbuf_nil]; [assumption|].
+        apply Forall_app; split; (apply Forall_nth_d; [assumption|apply wfbuf_nil]).
+      * now rewrite !upd_length.
+      * pose proof (held_upd (s_q st) i (nth i (s_q st) [] ++ nth j (s_q st) []) ltac:(lia)) as H1.
+        pose proof (held_upd (upd (s_q st) i (nth i (s_q st) [] ++ nth j (s_q st) [])) j []
+                      ltac:(rewrite upd_length; lia)) as H2.
+        rewrite nth_upd_other in H2 by assumption. rewrite app_length in H1. cbn [length] in H2. lia.
+    + cbn [astep out_abs]. unfold abs. cbn [s_q s_s a_q a_s].
+      rewrite !map_upd, abs_buf_app, !geta_map. reflexivity.
+  - (* QClear *)
+    getq st i H.
+    destruct (buf_clear_spec bs _ (s_pool st) Hp (wf_nth_q st i H)) as [Hp' Hac].
+    eexists _, _. split; [reflexivity|]. split.
+    + apply inv_setq; try assumption. apply wfbuf_nil.
+    + cbn [astep out_abs]. now rewrite abs_setq.
+  - (* QSize *)
+    getq st i H. eexists _, _. split; [reflexivity|]. split; [assumption|].
+    cbn [astep out_abs]. now rewrite geta_q, (buf_size_spec bs _ (wf_nth_q st i H)).
+  - (* QEmpty *)
+    getq st i H. eexists _, _. split; [reflexivity|]. split; [assumption|].
+    cbn [astep out_abs]. now rewrite geta_q, (q_empty_spec bs _ (wf_nth_q st i H)).
+  - (* SWrite *)
+    gets st j H.
+    destruct (s_write_spec bs Hbs (s_pool st) _ d Hp (wf_nth_s st j H)) as (p' & bl' & E & Hp' & Hbl' & Habs & Hac).
+    rewrite E. cbn [bind]. eexists _, _. split; [reflexivity|]. split.
+    + apply inv_sets; assumption.
+    + cbn [astep out_abs]. now rewrite abs_sets, geta_s, Habs.
+  - (* SWriteBE *)
+    gets st j H.
+    destruct (s_write_spec bs Hbs (s_pool st) _ (be_bytes w v) Hp (wf_nth_s st j H)) as (p' & bl' & E & Hp' & Hbl' & Habs & Hac).
+    rewrite E. cbn [bind]. eexists _, _. split; [reflexivity|]. split.
+    + apply inv_sets; assumption.
+    + cbn [astep out_abs]. now rewrite abs_sets, geta_s, Habs.
+  - (* SRead *)
+    gets st j H.
+    destruct (buf_read_spec bs _ (s_pool st) n Hp (wf_nth_s st j H)) as (p' & bl' & E & Hp' & Hbl' & Habs & Hac).
+    rewrite E. cbn [bind]. eexists _, _. split; [reflexivity|]. split.
+    + apply inv_sets; assumption.
+    + cbn [astep out_abs]. now rewrite abs_sets, geta_s, Habs.
+  - (* SReadStr *)
+    gets st j H. rewrite buf_read_str_eq.
+    destruct (buf_read_spec bs _ (s_pool st) n Hp (wf_nth_s st j H)) as (p' & bl' & E & Hp' & Hbl' & Habs & Hac).
+    rewrite E. cbn [bind]. eexists _, _. split; [reflexivity|]. split.
+    + apply inv_sets; assumption.
+    + cbn [astep out_abs]. now rewrite abs_sets, geta_s, Habs.
+  - (* SPop *)
+    gets st j H.
+    destruct (buf_pop_spec bs _ (s_pool st) n Hp (wf_nth_s st j H)) as (p' & bl' & E & Hp' & Hbl' & Habs & Hac).
+    rewrite E. eexists _, _. split; [reflexivity|]. split.
+    + apply inv_sets; assumption.
+    + cbn [astep out_abs]. now rewrite abs_sets, geta_s, Habs.
+  - (* SIOVec *)
+    gets st j H. rewrite (buf_iovec_spec bs _ (wf_nth_s st j H)). cbn [bind].
+    eexists _, _. split; [reflexivity|]. split; [assumption|].
+    cbn [astep out_abs]. now rewrite geta_s, concat_map_bc.
+  - (* SMove *)
+    destruct Hok as (Hj & Hi).
+    gets st j H. getq st i H.
+    eexists _, _. split; [reflexivity|]. split.
+    + destruct H as [_ Hq Hs Hnq Hns Hac]. constructor; cbn [s_pool s_q s_s]; try assumption.
+      * apply Forall_upd; [assumption|].
+        apply Forall_app; split; (apply Forall_nth_d; [assumption|apply wfbuf_nil]).
+      * apply Forall_upd; [assumption|apply wfbuf_nil].
+      * now rewrite upd_length.
+      * now rewrite upd_length.
+      * pose proof (held_upd (s_q st) i (nth i (s_q st) [] ++ nth j (s_s st) []) ltac:(lia)) as H1.
+        pose proof (held_upd (s_s st) j [] ltac:(lia)) as H2.
+        rewrite app_length in H1. cbn [length] in H2. lia.
+    + cbn [astep out_abs]. unfold abs. cbn [s_q s_s a_q a_s].
+      rewrite !map_upd, abs_buf_app, !geta_map. reflexivity.
+  - (* SDestroy *)
+    gets st j H.
+    destruct (buf_clear_spec bs _ (s_pool st) Hp (wf_nth_s st j H)) as [Hp' Hac].
+    eexists _, _. split; [reflexivity|]. split.
+    + apply inv_sets; try assumption. apply wfbuf_nil.
+    + cbn [astep out_abs]. now rewrite abs_sets.
+  - (* SSize *)
+    gets st j H. eexists _, _. split; [reflexivity|]. split; [assumption|].
+    cbn [astep out_abs]. now rewrite geta_s, (buf_size_spec bs _ (wf_nth_s st j H)).
+  - (* SEmpty *)
+    gets st j H. eexists _, _. split; [reflexivity|]. split; [assumption|].
+    cbn [astep out_abs]. now rewrite geta_s, (s_empty_spec bs _ (wf_nth_s st j H)).
+  - (* PoolPurge *)
+    eexists _, _. split; [reflexivity|]. split; [|reflexivity].
+    destruct H as [[Hpb Hpf] Hq Hs Hnq Hns Hac]. constructor; cbn [s_pool s_q s_s]; try assumption.
+    + split; [exact Hpb|constructor].
+    + unfold p_purge. cbn [p_alloc p_free length]. lia.
+Qed.
+
+(* every history *)
+Lemma run_sim : forall ops st,
+  Inv st -> Forall (op_ok nq ns) ops ->
+  exists st' outs, run st ops = Ok (st', outs) /\ Inv st' /\
+                   arun (abs st) ops = (abs st', map out_abs outs).
+Proof.
+  induction ops as [|o r IH]; intros st H Hok.
+  { exists st, []. split; [reflexivity|]. split; [assumption|reflexivity]. }
+  inversion Hok as [|? ? Ho Hr]; subst.
+  destruct (step_sim st o H Ho) as (st1 & x & E1 & H1 & A1).
+  destruct (IH st1 H1 Hr) as (st2 & xs & E2 & H2 & A2).
+  exists st2, (x :: xs). cbn [run arun map]. rewrite E1. cbn [bind]. rewrite E2. cbn [bind].
+  rewrite A1, A2. split; [reflexivity|]. split; [assumption|reflexivity].
+Qed.
+
+End Sim.
+
+(* ------------------------------------------------------------------ history-level theorems *)
+Lemma refines bs nq ns ops :
+  1 <= bs -> Forall (op_ok nq ns) ops ->
+  exists st outs, run (init bs nq ns) ops = Ok (st, outs) /\
+                  arun (ainit nq ns) ops = (abs st, map out_abs outs).
+Proof.
+  intros Hbs Hok.
+  destruct (run_sim bs nq ns Hbs ops (init bs nq ns) (inv_init bs nq ns) Hok) as (st & outs & E & _ & A).
+  exists st, outs. rewrite <- abs_init with (bs := bs). split; assumption.
+Qed.
+
+Lemma reach_inv bs nq ns ops st outs :
+  1 <= bs -> Forall (op_ok nq ns) ops -> run (init bs nq ns) ops = Ok (st, outs) ->
+  inv bs nq ns st /\ arun (ainit nq ns) ops = (abs st, map out_abs outs).
+Proof.
+  intros Hbs Hok E.
+  destruct (run_sim bs nq ns Hbs ops (init bs nq ns) (inv_init bs nq ns) Hok) as (st' & outs' & E' & Hi & A).
+  rewrite E in E'. inversion E'; subst. rewrite <- abs_init with (bs := bs). split; assumption.
+Qed.
+
+(* ------------------------------------------------------------------ consequences of the invariant *)
+Lemma in_use_held st : in_use st = held (s_q st) + held (s_s st).
+Proof. unfold in_use. apply held_app. Qed.
+
+Lemma inv_pool_facts bs nq ns st :
+  inv bs nq ns st ->
+  blocks_allocated st = free_blocks st + in_use st /\
+  (forall bl b, In bl (s_q st ++ s_s st) -> In b bl ->
+     b_first b < b_last b /\ b_last b <= bs /\ b_cap b = bs /\ length (b_data b) = bs) /\
+  (forall b, In b (p_free (s_pool st)) -> b_first b = 0 /\ b_last b = 0 /\ b_cap b = bs).
+Proof.
+  intros [[Hpb Hpf] Hq Hs Hnq Hns Hac]. split; [|split].
+  - unfold blocks_allocated, free_blocks. rewrite in_use_held. lia.
+  - intros bl b Hbl Hb.
+    assert (wfbuf bs bl) as Hw.
+    { apply in_app_or in Hbl. destruct Hbl as [Hbl|Hbl];
+        [exact (proj1 (Forall_forall _ _) Hq _ Hbl)|exact (proj1 (Forall_forall _ _) Hs _ Hbl)]. }
+    pose proof (proj1 (Forall_forall _ _) Hw _ Hb) as ((? & ?) & ? & ?). tauto.
+  - intros b Hb. pose proof (proj1 (Forall_forall _ _) Hpf _ Hb) as ((? & ?) & ? & ?). tauto.
+Qed.
+
+Lemma inv_bool_obs bs nq ns st : inv bs nq ns st -> acct_ok st = true /\ noempty_ok st = true.
+Proof.
+  intros H. destruct (inv_pool_facts _ _ _ _ H) as (Ha & Hh & _). split.
+  - unfold acct_ok. apply Nat.eqb_eq. exact Ha.
+  - unfold noempty_ok. apply forallb_forall. intros bl Hbl. apply forallb_forall. intros b Hb.
+    destruct (Hh bl b Hbl Hb) as (Hlt & _). unfold b_empty.
+    destruct (Nat.eqb_spec (b_last b) (b_first b)); [lia|reflexivity].
+Qed.
+
+Lemma inv_iovec bs nq ns st bl :
+  inv bs nq ns st -> In bl (s_q st ++ s_s st) ->
+  exists v, buf_iovec bl = Ok v /\ concat v = abs_buf bl /\ length v = length bl /\
+            Forall (fun s => s <> []) v.
+Proof.
+  intros H Hbl.
+  assert (wfbuf bs bl) as Hw.
+  { apply in_app_or in Hbl. destruct Hbl as [Hbl|Hbl];
+      [exact (proj1 (Forall_forall _ _) (inv_q _ _ _ _ H) _ Hbl)
+      |exact (proj1 (Forall_forall _ _) (inv_s _ _ _ _ H) _ Hbl)]. }
+  exists (map bc bl). split; [apply (buf_iovec_spec bs); exact Hw|]. split; [apply concat_map_bc|].
+  split; [apply map_length|].
+  apply Forall_forall. intros s Hs. apply in_map_iff in Hs. destruct Hs as (b & <- & Hb).
+  pose proof (proj1 (Forall_forall _ _) Hw _ Hb) as Hwb.
+  destruct (wfb_shape _ _ Hwb) as [Hsh Hrg]. pose proof (bc_length bs b Hsh Hrg) as Hl.
+  destruct Hwb as (_ & ? & _). unfold b_size in Hl. destruct (bc b); [cbn [length] in Hl; lia|discriminate].
+Qed.
+
+Lemma inv_size bs nq ns st bl :
+  inv bs nq ns st -> In bl (s_q st ++ s_s st) -> buf_size bl = length (abs_buf bl).
+Proof.
+  intros H Hbl. apply (buf_size_spec bs).
+  apply in_app_or in Hbl. destruct Hbl as [Hbl|Hbl];
+    [exact (proj1 (Forall_forall _ _) (inv_q _ _ _ _ H) _ Hbl)
+    |exact (proj1 (Forall_forall _ _) (inv_s _ _ _ _ H) _ Hbl)].
+Qed.
+
+(* ------------------------------------------------------------------ theorems over histories *)
+Lemma pool_thm bs nq ns ops st outs :
+  1 <= bs -> Forall (op_ok nq ns) ops -> run (init bs nq ns) ops = Ok (st, outs) ->
+  blocks_allocated st = free_blocks st + in_use st /\
+  (forall bl b, In bl (s_q st ++ s_s st) -> In b bl ->
+     b_first b < b_last b /\ b_last b <= bs /\ b_cap b = bs /\ length (b_data b) = bs) /\
+  (forall b, In b (p_free (s_pool st)) -> b_first b = 0 /\ b_last b = 0 /\ b_cap b = bs).
+Proof.
+  intros Hbs Hok E. destruct (reach_inv _ _ _ _ _ _ Hbs Hok E) as [Hi _].
+  exact (inv_pool_facts _ _ _ _ Hi).
+Qed.
+
+Lemma nth_In_app_l {A} (l l' : list A) i d : i < length l -> In (nth i l d) (l ++ l').
+Proof. intros. apply in_or_app. left. now apply nth_In. Qed.
+Lemma nth_In_app_r {A} (l l' : list A) i d : i < length l' -> In (nth i l' d) (l ++ l').
+Proof. intros. apply in_or_app. right. now apply nth_In. Qed.
+
+Lemma size_thm bs nq ns ops st outs :
+  1 <= bs -> Forall (op_ok nq ns) ops -> run (init bs nq ns) ops = Ok (st, outs) ->
+  (forall i, i < nq ->
+     buf_size (nth i (s_q st) []) = length (geta (a_q (fst (arun (ainit nq ns) ops))) i)) /\
+  (forall j, j < ns ->
+     buf_size (nth j (s_s st) []) = length (geta (a_s (fst (arun (ainit nq ns) ops))) j)).
+Proof.
+  intros Hbs Hok E. destruct (reach_inv _ _ _ _ _ _ Hbs Hok E) as [Hi ->]. unfold abs. cbn [fst a_q a_s]. split.
+  - intros i Hlt. rewrite geta_map. apply (inv_size _ _ _ _ _ Hi).
+    apply nth_In_app_l. rewrite (inv_nq _ _ _ _ Hi). exact Hlt.
+  - intros j Hlt. rewrite geta_map. apply (inv_size _ _ _ _ _ Hi).
+    apply nth_In_app_r. rewrite (inv_ns _ _ _ _ Hi). exact Hlt.
+Qed.
+
+Lemma iovec_thm bs nq ns ops st outs :
+  1 <= bs -> Forall (op_ok nq ns) ops -> run (init bs nq ns) ops = Ok (st, outs) ->
+  (forall i, i < nq -> exists v,
+     buf_iovec (nth i (s_q st) []) = Ok v /\ length v = length (nth i (s_q st) []) /\
+     Forall (fun s => s <> []) v /\
+     concat v = geta (a_q (fst (arun (ainit nq ns) ops))) i) /\
+  (forall j, j < ns -> exists v,
+     buf_iovec (nth j (s_s st) []) = Ok v /\ length v = length (nth j (s_s st) []) /\
+     Forall (fun s => s <> []) v /\
+     concat v = geta (a_s (fst (arun (ainit nq ns) ops))) j).
+Proof.
+  intros Hbs Hok E. destruct (reach_inv _ _ _ _ _ _ Hbs Hok E) as [Hi ->]. unfold abs. cbn [fst a_q a_s]. split.
+  - intros i Hlt. rewrite geta_map.
+    destruct (inv_iovec _ _ _ _ (nth i (s_q st) []) Hi) as (v & Ev & Hc & Hl & Hn).
+    { apply nth_In_app_l. rewrite (inv_nq _ _ _ _ Hi). exact Hlt. }
+    exists v. tauto.
+  - intros j Hlt. rewrite geta_map.
+    destruct (inv_iovec _ _ _ _ (nth j (s_s st) []) Hi) as (v & Ev & Hc & Hl & Hn).
+    { apply nth_In_app_r. rewrite (inv_ns _ _ _ _ Hi). exact Hlt. }
+    exists v. tauto.
+Qed.
+
+(* ------------------------------------------------------------------ ledger (specification level) *)
+Definition awf (nq ns : nat) (a : astate) : Prop := length (a_q a) = nq /\ length (a_s a) = ns.
+
+Lemma geta_upd_same l i v : i < length l -> geta (upd l i v) i = v.
+Proof. apply nth_upd_same. Qed.
+Lemma geta_upd_other l i k v : i <> k -> geta (upd l i v) k = geta l k.
+Proof. apply nth_upd_other. Qed.
+
+Lemma awf_astep nq ns a o : awf nq ns a -> awf nq ns (fst (astep a o)).
+Proof.
+  intros [Hq Hs]. destruct o; cbn [astep fst]; unfold aq, as_; split; cbn [a_q a_s]; rewrite ?upd_length; assumption.
+Qed.
+
+Ltac led_split :=
+  repeat match goal with
+         | |- context [Nat.eqb ?x ?y] => destruct (Nat.eqb_spec x y); subst
+         end.
+
+Lemma ledger_step nq ns a o k :
+  awf nq ns a -> op_ok nq ns o -> kid_ok nq ns k ->
+  length (content (fst (astep a o)) k) + took a o k = length (content a k) + put a o k.
+Proof.
+  intros [Hq Hs] Hok Hk.
+  destruct o; destruct k as [k|k]; cbn [op_ok kid_ok] in *;
+    cbn [astep fst]; unfold aq, as_; cbn [content put took isq iss a_q a_s]; led_split;
+    rewrite ?geta_upd_same by (rewrite ?upd_length; lia);
+    rewrite ?geta_upd_other by congruence;
+    rewrite ?geta_upd_same by (rewrite ?upd_length; lia);
+    rewrite ?app_length, ?skipn_length; cbn [length]; try lia.
+Qed.
+
+Lemma ledger_gen nq ns : forall ops a k,
+  awf nq ns a -> Forall (op_ok nq ns) ops -> kid_ok nq ns k ->
+  let '(w, c) := ledger a ops k in
+  length (content (fst (arun a ops)) k) + c = length (content a k) + w.
+Proof.
+  induction ops as [|o r IH]; intros a k Ha Hok Hk.
+  { cbn [ledger arun fst]. lia. }
+  inversion Hok as [|? ? Ho Hr]; subst.
+  cbn [ledger arun].
+  pose proof (ledger_step nq ns a o k Ha Ho Hk) as Hs.
+  specialize (IH (fst (astep a o)) k (awf_astep nq ns a o Ha) Hr Hk).
+  destruct (astep a o) as [a1 x] eqn:E1. cbn [fst] in *.
+  destruct (ledger a1 r k) as [w c]. destruct (arun a1 r) as [a2 xs]. cbn [fst] in *. lia.
+Qed.
+
+Lemma content_ainit nq ns k : content (ainit nq ns) k = [].
+Proof.
+  destruct k as [i|j]; unfold content, ainit, geta; cbn [a_q a_s].
+  - destruct (le_lt_dec nq i); [rewrite nth_overflow by (rewrite repeat_length; lia); reflexivity|].
+    apply (repeat_spec nq []). apply nth_In. rewrite repeat_length. lia.
+  - destruct (le_lt_dec ns j); [rewrite nth_overflow by (rewrite repeat_length; lia); reflexivity|].
+    apply (repeat_spec ns []). apply nth_In. rewrite repeat_length. lia.
+Qed.
+
+Lemma ledger_thm nq ns ops k :
+  Forall (op_ok nq ns) ops -> kid_ok nq ns k ->
+  let '(w, c) := ledger (ainit nq ns) ops k in
+  length (content (fst (arun (ainit nq ns) ops)) k) + c = w.
+Proof.
+  intros Hok Hk.
+  pose proof (ledger_gen nq ns ops (ainit nq ns) k) as H.
+  destruct (ledger (ainit nq ns) ops k) as [w c].
+  rewrite content_ainit in H. cbn [length] in H. apply H; try assumption.
+  unfold awf, ainit. cbn [a_q a_s]. now rewrite !repeat_length.
+Qed.
